@@ -430,6 +430,8 @@ func newCluster(cfg *xcfg) *cluster {
 // A<i> apply, J<i> start joiner, D* deliver everything (oldest first) until
 // quiescent, D<f>><t> deliver the head of channel f->t, X* drop everything in
 // flight, X><t> drop everything addressed to t, X<f>><t> drop channel f->t.
+type prefixViolation string
+
 func (c *cluster) warm() {
 	saved := c.cfg
 	tmp := *saved
@@ -438,12 +440,24 @@ func (c *cluster) warm() {
 	tmp.Snapshots, tmp.Crashes, tmp.MaxIndex, tmp.MaxTerm, tmp.MaxInflight = big, big, 1<<40, 1<<40, 0
 	tmp.LazyApply = saved.LazyApply
 	c.cfg = &tmp
+	// an oracle that fails while the prefix runs is a violation of the initial
+	// state of the search (reported with the empty path), not a harness error
+	defer func() {
+		if rec := recover(); rec != nil {
+			pv, ok := rec.(prefixViolation)
+			if !ok {
+				panic(rec)
+			}
+			c.cfg = saved
+			c.viol = "in the scenario prefix: " + string(pv)
+		}
+	}()
 	step := func(e uint32) {
 		if msg := c.Step(e); msg != "" {
-			panic("scenario prefix: " + msg)
+			panic(prefixViolation(msg))
 		}
 		if msg := c.Check(); msg != "" {
-			panic("scenario prefix: " + msg)
+			panic(prefixViolation(msg))
 		}
 	}
 	oldest := func(match func(m pb.Message) bool) int {
